@@ -318,6 +318,8 @@ pub enum Amt {
 #[derive(Clone, Debug, Serialize, Deserialize)]
 pub enum Op {
 	Send { route: u16, amt: Amt },
+	/// like `Send`, the recipient behind a blinded path (introduction node = the first forwarder, or the recipient itself on a direct payment)
+	SendBlinded { route: u16, amt: Amt },
 	Claim { pay: u16 },
 	FailBack { pay: u16 },
 	/// deliver k messages on the link-th non-empty directed link
@@ -329,6 +331,8 @@ pub enum Op {
 	Disconnect { pair: u16 },
 	Reconnect { pair: u16 },
 	SetFee { node: u16, rate: u32 },
+	/// like `SetFee` without the clamp to the library's buffers (any jump up or down)
+	SetFeeJump { node: u16, rate: u32 },
 	Timer { node: u16 },
 	Async { node: u16, chan: u16, on: bool },
 	Complete { node: u16, which: u16 },
@@ -379,11 +383,14 @@ pub struct OpWeights {
 	pub set_style: u32,
 	pub snapshot: u32,
 	pub restart: u32,
+	/// payments to a recipient behind a blinded path it built itself (0 in most profiles)
+	pub send_blinded: u32,
+	pub setfee_jump: u32,
 }
 
 impl OpWeights {
 	pub fn zero() -> OpWeights {
-		OpWeights { send: 0, claim: 0, fail: 0, deliver: 0, flush: 0, events: 0, forwards: 0, disconnect: 0, reconnect: 0, setfee: 0, timer: 0, async_toggle: 0, complete: 0, pump: 0, force_close: 0, tamper_revoke: 0, mine: 0, reorg: 0, set_style: 0, snapshot: 0, restart: 0 }
+		OpWeights { send: 0, claim: 0, fail: 0, deliver: 0, flush: 0, events: 0, forwards: 0, disconnect: 0, reconnect: 0, setfee: 0, timer: 0, async_toggle: 0, complete: 0, pump: 0, force_close: 0, tamper_revoke: 0, mine: 0, reorg: 0, set_style: 0, snapshot: 0, restart: 0, send_blinded: 0, setfee_jump: 0 }
 	}
 }
 
@@ -400,6 +407,7 @@ pub fn amt_strategy() -> impl Strategy<Value = Amt> + Clone {
 pub fn op_strategy(w: OpWeights) -> impl Strategy<Value = Op> + Clone {
 	let mut v: Vec<(u32, BoxedStrategy<Op>)> = vec![
 		(w.send, (any::<u16>(), amt_strategy()).prop_map(|(route, amt)| Op::Send { route, amt }).boxed()),
+		(w.send_blinded, (any::<u16>(), amt_strategy()).prop_map(|(route, amt)| Op::SendBlinded { route, amt }).boxed()),
 		(w.claim, any::<u16>().prop_map(|pay| Op::Claim { pay }).boxed()),
 		(w.fail, any::<u16>().prop_map(|pay| Op::FailBack { pay }).boxed()),
 		(w.deliver, (any::<u16>(), 1u8..6).prop_map(|(link, k)| Op::Deliver { link, k }).boxed()),
@@ -409,6 +417,7 @@ pub fn op_strategy(w: OpWeights) -> impl Strategy<Value = Op> + Clone {
 		(w.disconnect, any::<u16>().prop_map(|pair| Op::Disconnect { pair }).boxed()),
 		(w.reconnect, any::<u16>().prop_map(|pair| Op::Reconnect { pair }).boxed()),
 		(w.setfee, (any::<u16>(), prop_oneof![253u32..2_000, 253u32..20_000]).prop_map(|(node, rate)| Op::SetFee { node, rate }).boxed()),
+		(w.setfee_jump, (any::<u16>(), prop_oneof![253u32..1_000, 253u32..8_000, 1_000u32..40_000]).prop_map(|(node, rate)| Op::SetFeeJump { node, rate }).boxed()),
 		(w.timer, any::<u16>().prop_map(|node| Op::Timer { node }).boxed()),
 		(w.async_toggle, (any::<u16>(), any::<u16>(), proptest::bool::weighted(0.7)).prop_map(|(node, chan, on)| Op::Async { node, chan, on }).boxed()),
 		(
@@ -482,6 +491,21 @@ pub fn apply(sim: &mut Sim, spec: &WorldSpec, op: &Op) -> &'static str {
 				"send-refused"
 			} else {
 				"send"
+			}
+		},
+		Op::SendBlinded { route, amt } => {
+			let routes = spec.topo.routes();
+			let (from, chans) = &routes[pick(*route, routes.len())];
+			let Some(a) = resolve_amount(sim, *from, chans[0], amt) else { return "send-skipped" };
+			if sim.pays.len() >= 60 {
+				return "send-skipped";
+			}
+			let a = if chans.len() > 1 { (a / 2).max(1) } else { a };
+			let Some(idx) = sim.try_send_blinded(*from, chans, a) else { return "send-skipped" };
+			if sim.pays[idx].state == PayState::Refused {
+				"send-blinded-refused"
+			} else {
+				"send-blinded"
 			}
 		},
 		Op::Claim { pay } => {
@@ -568,6 +592,12 @@ pub fn apply(sim: &mut Sim, spec: &WorldSpec, op: &Op) -> &'static str {
 			sim.set_feerate(i, rate);
 			sim.timer_tick(i);
 			"setfee"
+		},
+		Op::SetFeeJump { node, rate } => {
+			let i = pick(*node, n);
+			sim.set_feerate(i, *rate);
+			sim.timer_tick(i);
+			"setfee-jump"
 		},
 		Op::Timer { node } => {
 			sim.timer_tick(pick(*node, n));
